@@ -46,6 +46,7 @@ def case_stats(path, stats):
     for c in vlib.iter_ndjson(path):
         n += 1
         o = c["obj"]
+        stats["receivers"][(o["k"], c.get("rcv", {}).get("pre", "fresh"))] += 1
         if o["k"] == "dist":
             stats["dist_names"].update(names_of(o["cfg"]))
             hv = o["cfg"]["f"]["Parameters"].get("hv")
@@ -172,7 +173,7 @@ def run(ctx):
     ctx.sany("SerializationTrace")
     stats = dict(kinds=collections.Counter(), faults=collections.Counter(), cfg_faults=collections.Counter(),
                  types=set(), atoms=collections.Counter(), model=collections.Counter(), dist_names=set(),
-                 layouts=collections.Counter(), hmm_variants=collections.Counter())
+                 layouts=collections.Counter(), hmm_variants=collections.Counter(), receivers=collections.Counter())
     # 1. the model: contract invariants + case generation
     files = {}
     ncases = {}
@@ -206,6 +207,11 @@ def run(ctx):
             for w in ("id", "T", "S", "ST", "TS"):
                 if not any(k[0] == "matrix" and k[2] == st and k[3] == fm and k[4] == w for k in stats["kinds"]):
                     raise vlib.Infra("vacuity: no matrix case %s/%s/%s" % (st, fm, w))
+    for kind, pres in (("scalar", ("used",)), ("dist", ("used",)), ("vector", ("longer", "shorter", "sliced")),
+                       ("matrix", ("larger", "smaller", "transposed", "transposedSame", "sliced", "slicedT"))):
+        for pre in pres:
+            if stats["receivers"][(kind, pre)] == 0:
+                raise vlib.Infra("vacuity: receiver pre-state %s/%s never generated" % (kind, pre))
     for lay in ("NoFinalNewline", "CRLF", "TrailingBlanks"):
         if stats["layouts"][lay] == 0:
             raise vlib.Infra("vacuity: table layout %s never generated" % lay)
@@ -302,6 +308,7 @@ def run(ctx):
     ctx.extra["child_deaths_attributed"] = counts["deaths"]
     ctx.extra["per_action_counts"] = {"faults": dict(stats["faults"]), "config_faults": dict(stats["cfg_faults"]),
                                       "model_decoder": dict(stats["model"]), "table_layouts": dict(stats["layouts"]),
+                                      "receiver_pre_states": {"%s/%s" % k: v for k, v in sorted(stats["receivers"].items())},
                                       "hmm_variants": dict(stats["hmm_variants"])}
     ctx.extra["layout_variants_rejected_with_error"] = counts["layout_rejected"]
     ctx.extra["element_types"] = sorted(stats["types"])
